@@ -82,8 +82,8 @@ def run(ctx):
         depth = 3
         ctx.budget = ctx.budget or 170
     else:
-        depth = 6
-        ctx.budget = ctx.budget or 1500
+        depth = 5
+        ctx.budget = ctx.budget or 1800
     st = explore_seq.explore(ctx, 'vp.props.c08', 'Spec', (2,), max_depth=depth)
     # second part: every interleaving of a DELETE with a request that starts using the entity
     from vp import explore_conc
